@@ -38,6 +38,8 @@ type pwCluster struct {
 var pwNamespaces = []*corev1.Namespace{
 	{ObjectMeta: metav1.ObjectMeta{Name: "ns1", Labels: map[string]string{"team": "a"}}},
 	{ObjectMeta: metav1.ObjectMeta{Name: "ns2", Labels: map[string]string{"team": "b"}}},
+	// a namespace whose name extends another one's: "web_ns1" is a substring of "web_ns12"
+	{ObjectMeta: metav1.ObjectMeta{Name: "ns12", Labels: map[string]string{"team": "c"}}},
 }
 
 type policyWorld struct {
@@ -157,6 +159,7 @@ func policyMenu() map[string]*networkv1.NetworkPolicy {
 		// front of a rule with a selector peer (rule index and set index differ)
 		"in-two-podsel":        np("ns1", "in-two-podsel", sel("app", "web"), tIn, []networkv1.NetworkPolicyIngressRule{{From: []networkv1.NetworkPolicyPeer{peerPod("role", "nobody"), peerPod("role", "client")}}}, nil),
 		"in-ports-then-podsel": np("ns1", "in-ports-then-podsel", sel("app", "web"), tIn, []networkv1.NetworkPolicyIngressRule{{Ports: []networkv1.NetworkPolicyPort{port(corev1.ProtocolTCP, 81)}}, {From: []networkv1.NetworkPolicyPeer{peerPod("role", "client")}, Ports: []networkv1.NetworkPolicyPort{port(corev1.ProtocolTCP, 80)}}}, nil),
+		"in-ns12":              np("ns12", "in-ns12", sel("app", "web"), tIn, []networkv1.NetworkPolicyIngressRule{{From: []networkv1.NetworkPolicyPeer{peerPod("role", "client")}}}, nil),
 		"in-ns2":               np("ns2", "in-ns2", sel("app", "web"), tIn, []networkv1.NetworkPolicyIngressRule{{From: []networkv1.NetworkPolicyPeer{peerPod("role", "client")}}}, nil),
 		"in-ports-only":        np("ns1", "in-ports-only", sel("app", "web"), tIn, []networkv1.NetworkPolicyIngressRule{{Ports: []networkv1.NetworkPolicyPort{port(corev1.ProtocolTCP, 80)}}}, nil),
 		"in-ns-and-pod":        np("ns1", "in-ns-and-pod", sel("app", "web"), tIn, []networkv1.NetworkPolicyIngressRule{{From: []networkv1.NetworkPolicyPeer{{NamespaceSelector: sel("team", "b"), PodSelector: sel("role", "client")}}}}, nil),
@@ -180,6 +183,7 @@ var pwPodMenu = map[string]pwPod{
 	"web":          {NS: "ns1", Name: "web", Labels: map[string]string{"app": "web"}, IP: "10.0.0.2", OnNode: true},
 	"db":           {NS: "ns1", Name: "db", Labels: map[string]string{"app": "db", "role": "client"}, IP: "10.0.0.3", OnNode: true},
 	"cli2":         {NS: "ns2", Name: "cli2", Labels: map[string]string{"app": "web", "role": "client"}, IP: "10.0.1.2", OnNode: true},
+	"web12":        {NS: "ns12", Name: "web", Labels: map[string]string{"app": "web"}, IP: "10.0.2.2", OnNode: true}, // same name as web, namespace ns12
 	"cli2-off":     {NS: "ns2", Name: "cli2", Labels: map[string]string{"app": "web", "role": "client"}, IP: "10.0.1.2", OnNode: false},
 	"web-new":      {NS: "ns1", Name: "web", Labels: map[string]string{"app": "web"}, IP: "10.0.0.9", OnNode: true},                      // web re-created with another IP
 	"db-plain":     {NS: "ns1", Name: "db", Labels: map[string]string{"app": "db"}, IP: "10.0.0.3", OnNode: true},                        // db lost its role=client label
